@@ -81,7 +81,10 @@ def _gamma(ctx, N, d):
         EI.multi_index_binomial(np.ones(N + 1), np.ones(max(1, N - 1)))
     except Exception:
         pass
-    g1, r1 = EI.generate_Gamma_and_rays(N, d)
+    # N and d in the spellings a caller has at hand: Python ints, elements of integer arrays of any width
+    sp = [int, np.int64, np.int32, np.int16, np.int8, np.uint8][(N * 7 + d * 3) % 6]
+    Ns, ds = (sp(N), sp(d)) if (N < 100 and d < 100) else (N, d)
+    g1, r1 = EI.generate_Gamma_and_rays(Ns, ds)
     first = (np.array(g1, copy=True), np.array(r1, copy=True))
     if isinstance(g1, np.ndarray) and isinstance(r1, np.ndarray) and g1.flags.writeable and r1.flags.writeable:
         g1 *= 3.0; r1 += 1.0            # what a caller may do with its own result; must not influence the next request
